@@ -323,7 +323,7 @@ def run_rect(case, res):
     want = sorted((x, y) for x in xs for y in ys)
     if got != want:
         res["violations"].append(core.viol("rectangle_lattice_wrong", case, observed=len(got), expected=len(want),
-                                           msg=f"rectangle {W}x{H} at ({ox},{oy}), spacing {s}: {len(got)} boreholes, expected the {nx + 1}x{ny + 1} lattice with pitches {W / nx:.4f} x {H / ny:.4f}"))
+                                           msg=f"rectangle {W}x{H} at ({ox},{oy}), spacing {s}: {len(got)} boreholes, expected the {nx + 1}x{ny + 1} lattice with pitches {(W / nx) if nx else 0.0:.4f} x {(H / ny) if ny else 0.0:.4f} (0 = a single line)"))
     res.outcome("rectangle")
     res["nontrivial"] += 1
 
